@@ -258,6 +258,40 @@ pub fn simple_world(n_exchanges: std::ops::RangeInclusive<u8>, extra: std::ops::
     })
 }
 
+/// Project arbitrary definitions into the domain the generators produce: pool-bounded selectors,
+/// base != quote, no duplicates, at least one instrument.
+pub fn normalise_defs(defs: Vec<InstrumentDef>, simple_only: bool) -> Vec<InstrumentDef> {
+    let na = ASSETS.len() as u8;
+    let mut out: Vec<InstrumentDef> = Vec::new();
+    for mut d in defs.into_iter().take(16) {
+        d.exchange %= EXCHANGES.len() as u8;
+        d.base %= na;
+        d.quote %= na;
+        if d.quote == d.base {
+            d.quote = (d.base + 1) % na;
+        }
+        d.kind = match d.kind {
+            KindDef::Spot => KindDef::Spot,
+            KindDef::Perpetual { settle } => KindDef::Perpetual { settle: settle % na },
+            KindDef::Future { settle, expiry_day } if !simple_only => KindDef::Future { settle: settle % na, expiry_day: expiry_day % 3 },
+            KindDef::Option { settle, expiry_day, call, strike } if !simple_only => KindDef::Option { settle: settle % na, expiry_day: expiry_day % 3, call, strike: strike % 3 },
+            _ => KindDef::Spot,
+        };
+        d.unit = match d.unit {
+            UnitDef::Asset(a) if !simple_only => UnitDef::Asset(a % na),
+            u if !simple_only => u,
+            _ => UnitDef::NoSpec,
+        };
+        if !out.contains(&d) {
+            out.push(d);
+        }
+    }
+    if out.is_empty() {
+        out.push(InstrumentDef { exchange: 0, base: 0, quote: 2, kind: KindDef::Spot, unit: UnitDef::NoSpec });
+    }
+    out
+}
+
 pub fn index(defs: &[InstrumentDef]) -> IndexedInstruments {
     IndexedInstruments::new(defs.iter().map(|d| d.to_instrument()))
 }
